@@ -22,7 +22,7 @@ MCInit == IF Family = "Multi"
           ELSE \E S \in ScenSet : InitWith([c \in Conns |-> S])
 Spec == MCInit /\ [][Next]_vars /\ Fairness
 (* ghost/history variables do not influence behaviour: hide them from the fingerprint *)
-View == <<scen, wire, rbuf, cseg, peer, pc, cur, hpos, hfail, hc, out, disp, active, lost>>
+View == <<scen, wire, rbuf, cseg, peer, pc, cur, hpos, hfail, hc, out, disp, active, lost, cdone>>
 (* C01: nothing on one connection depends on the others *)
 Independence == \A c \in Conns : /\ IsPrefix(out[c], Sem(scen[c]).out)
                                  /\ IsPrefix(disp[c], Sem(scen[c]).disp)
